@@ -657,6 +657,29 @@ impl Net {
                                 "none".to_string()
                             }
                         }
+                        // end-of-stream must arrive before more than <cap> bytes have been read from now on
+                        "eofcap" => {
+                            let cap: usize = w.get(3).and_then(|s| s.parse().ok()).unwrap_or(1 << 20);
+                            let end = tokio::time::Instant::now() + pos_deadline() * 4;
+                            let mut got = 0usize;
+                            let mut buf = vec![0u8; 1 << 16];
+                            loop {
+                                if rc.eof {
+                                    break "eof".to_string();
+                                }
+                                if got > cap {
+                                    break format!("flood >{}", cap);
+                                }
+                                match tokio::time::timeout_at(end, rc.io.read(&mut buf)).await {
+                                    Err(_) => {
+                                        note_expired();
+                                        break "open".to_string();
+                                    }
+                                    Ok(Ok(0)) | Ok(Err(_)) => rc.eof = true,
+                                    Ok(Ok(n)) => got += n,
+                                }
+                            }
+                        }
                         "eof" => {
                             let _ = Net::read_until(rc, pos_deadline(), |c| c.eof).await;
                             if rc.eof {
@@ -772,6 +795,31 @@ impl Net {
                     self.hoard.pop();
                 }
                 "ok".into()
+            }
+            // subbig <s> <count> <size>: a SUB socket subscribes to <count> distinct topics of <size> bytes
+            "subbig" => {
+                let s = num(1).unwrap();
+                let (count, size) = (num(2).unwrap_or(1), num(3).unwrap_or(1));
+                let mut sock = match self.socks.remove(&s) {
+                    Some(x) => x,
+                    None => return "bad-op no-sock".into(),
+                };
+                let r = self.rt.block_on(async {
+                    for i in 0..count {
+                        let mut topic = vec![0x41u8 + (i % 26) as u8; size];
+                        topic.extend_from_slice(format!("-{}", i).as_bytes());
+                        let res = match &mut sock {
+                            Sock::Sub(x) => x.subscribe(&String::from_utf8(topic).unwrap()).await,
+                            _ => Err(ZmqError::Other("not a SUB socket")),
+                        };
+                        if let Err(e) = res {
+                            return format!("err {}", err_class(&format!("{:?}", e)));
+                        }
+                    }
+                    "ok".to_string()
+                });
+                self.socks.insert(s, sock);
+                r
             }
             // pause <ms>
             "pause" => {
